@@ -18,4 +18,5 @@ for p in "C01 C02 C03 C09 C13 C14 C15 C18 C19".split():
         chk, rc, vr, sg = sigs.get(sid, (p, "?", "?", "?"))
         hist = HIST.get(sid) or ("caught at first run" if caught_first else "missed -> ?")
         sg = ", ".join(sg.split()[:3])
-        print(f"| {sid} | {m.get('change','?')} | {m.get('needs_to_manifest','?')} | {chk}: {sg} | {hist} |")
+        cut = lambda t: (t if len(t) <= 230 else t[:227].rsplit(" ", 1)[0] + " ...").replace("|", "/")
+        print(f"| {sid} | {cut(m.get('change','?'))} | {cut(m.get('needs_to_manifest','?'))} | {chk}: {sg} | {hist} |")
